@@ -8,7 +8,8 @@ from ..core import Acc
 LEVEL = "model_checking"
 RULE = ("every tuple (idA,idB,X,Y,K,pw) in ALPHA^6 and (idS,m1,m2,K,pw) in ALPHA^5, ALPHA = {'',a,b,aa,ab,ba,bb}, plus byte pairs "
         "exposing signed/length-first comparison, through finalize_SPAKE2 / finalize_SPAKE2_symmetric; fixed-width tables: all tuples "
-        "with X,Y,K of width 1 over 3 byte values (and width 2). distinct_nontrivial = distinct keys returned")
+        "with X,Y,K of width 1 over 3 byte values (and width 2); both functions called from 2-3 threads at once, every schedule with at most 2 "
+        "(thorough: 4) preemptions at line granularity and 1 (2) at opcode granularity. distinct_nontrivial = distinct keys returned")
 ASSUMPTIONS = ["hashlib.sha256 is SHA-256"]
 EXHAUSTIVE = True
 ALPHA = [b"", b"a", b"b", b"aa", b"ab", b"ba", b"bb"]
@@ -237,8 +238,62 @@ def _extra(acc):
                       "replay": {"fn": "asym", "args": [b"a", b"bc", b"X", b"Y", b"K", b"pw"]}, "expected": "differ", "observed": b})
 
 
+# ---------------------------------------------------------------------------
+# the two functions called at the same time from several threads: every schedule within the preemption bound
+
+THREAD_CALLS = {
+    "sym+sym": [("sym", (b"idS", b"m1", b"m0", b"K-one", b"pw1")), ("sym", (b"idT", b"n0", b"n1", b"K-two", b"pw2"))],
+    "asym+asym": [("asym", (b"idA", b"idB", b"X1", b"Y1", b"K-one", b"pw1")), ("asym", (b"idC", b"idD", b"X2", b"Y2", b"K-two", b"pw2"))],
+    "sym+asym": [("sym", (b"idS", b"m1", b"m0", b"K-one", b"pw1")), ("asym", (b"idA", b"idB", b"X1", b"Y1", b"K-two", b"pw2"))],
+    "sym+sym+sym": [("sym", (b"idS", b"m1", b"m0", b"K-one", b"pw1")), ("sym", (b"idT", b"n0", b"n1", b"K-two", b"pw2")), ("sym", (b"", b"", b"", b"", b""))],
+    "same-args": [("sym", (b"idS", b"m1", b"m0", b"K", b"pw")), ("sym", (b"idS", b"m0", b"m1", b"K", b"pw"))],
+}
+
+
+def _thread_bodies(name):
+    sp = T.lib().sp
+    out = []
+    for fn, args in THREAD_CALLS[name.split("@")[0]]:
+        f = sp.finalize_SPAKE2 if fn == "asym" else sp.finalize_SPAKE2_symmetric
+        out.append(lambda f=f, args=args: f(*args))
+    return out
+
+
+def _thread_task(task):
+    from .. import sched
+    name, bound = task
+    acc = Acc()
+    opc = name.endswith("@opcode")
+    exp = [("ok", (ref_asym if fn == "asym" else ref_sym)(*args)) for fn, args in THREAD_CALLS[name.split("@")[0]]]
+    for b in _thread_bodies(name):
+        T.observe(b)
+    if opc:
+        sched.warm_opcodes(_thread_bodies(name), T.PKG)
+    outcomes = set()
+
+    def on_result(res, run):
+        acc.n(transitions=len(run.points), traces=1, states=1, evaluations=len(res))
+        outcomes.add(core.h8(res))
+        if res != exp:
+            pre = sum(1 for c, (n, re) in zip(run.choices, run.points) if re and c != 0)
+            acc.violation("C17/threads/%s/key-depends-on-schedule" % name.split("@")[0],
+                          {"what": "finalize functions called from %d threads: a schedule with %d preemption(s) returns a key that is not the defined hash of the call's own arguments" % (len(res), pre),
+                           "replay": {"fn": "schedule", "name": name, "choices": list(run.choices)}, "expected": exp, "observed": res})
+    try:
+        n = sched.explore(lambda: _thread_bodies(name), bound, T.PKG, on_result, opcodes=opc)
+        acc.inst(name, schedules=n)
+    except sched.Divergence as e:
+        acc.degrade("thread-schedule exploration incomplete for %s (%s)" % (name, e))
+    acc.seen(("threads", name, len(outcomes)))
+    return acc
+
+
 def run(tier, seed):
     acc = Acc()
+    thr = [("sym+sym", 2), ("asym+asym", 2), ("sym+asym", 2), ("same-args", 2), ("sym+sym@opcode", 1), ("asym+asym@opcode", 1)]
+    if tier != "quick":
+        thr = [("sym+sym", 4), ("asym+asym", 4), ("sym+asym", 4), ("same-args", 4), ("sym+sym+sym", 2), ("sym+sym@opcode", 2), ("asym+asym@opcode", 2), ("sym+asym@opcode", 2)]
+    core.pmerge(_thread_task, thr, acc)
     if tier != "quick":
         ALPHA[:] = ALPHA_THOROUGH
     core.pmerge(_asym_task, [(a, b) for a in ALPHA for b in ALPHA], acc)
@@ -253,6 +308,14 @@ def run(tier, seed):
 def replay(rec):
     r = T.unjson(rec["replay"])
     sp = T.lib().sp
+    if r["fn"] == "schedule":
+        from .. import sched
+        opc = r["name"].endswith("@opcode")
+        for b in _thread_bodies(r["name"]):
+            T.observe(b)
+        if opc:
+            sched.warm_opcodes(_thread_bodies(r["name"]), T.PKG)
+        return sched.Run(_thread_bodies(r["name"]), r["choices"], T.PKG, opc).run()
     if r["fn"] in ("asym-size", "sym-size", "asym-history"):
         return "re-run the check (needs the history / the large argument)"
     f = sp.finalize_SPAKE2 if r["fn"] == "asym" else sp.finalize_SPAKE2_symmetric
